@@ -54,6 +54,11 @@ func genRTConfig(ch *Chooser, prop, tier string, disabled map[string]bool) *RunC
 	}
 	cfg.Focus = cands[ch.Pick("focus-node", len(cands))]
 	cfg.HasFocus = true
+	// a focus node with a slow clock: the others time out first, so it is voted into views it has not reached by its
+	// own timeout, and its own triggers arrive late (not for C12, whose recovery phase needs one common base)
+	if prop != "C12" && ch.Pick("focus-slow-timer", 4) == 3 {
+		cfg.TimerBaseMs[cfg.Focus] *= 4
+	}
 	cfg.FocusRealTimer = ch.Pick("focus-real-timer", 3) == 2
 	cfg.SpiBlockPm = []int{0, 100, 300, 600}[ch.Pick("r-spiblock", 4)]
 	cfg.ValidateFailPm = []int{0, 0, 50, 200}[ch.Pick("r-vfail2", 4)]
